@@ -134,8 +134,9 @@ Proof.
     pose proof (strip_clean t Ct) as Cl. pose proof (strip_clean u Cu) as Cr.
     rewrite <- (strip_skel t), <- (strip_skel u).
     remember (strip t) as lhs eqn:El. remember (strip u) as rhs eqn:Er.
-    destruct (cmp true n None lhs rhs) as [[|]|] eqn:E; try discriminate.
-    + apply (IH None); assumption.
+    destruct (if is_list_ty lhs && is_list_ty rhs then Some false else cmp true n None lhs rhs) as [[|]|] eqn:E;
+      try discriminate.
+    + destruct (is_list_ty lhs && is_list_ty rhs); [discriminate|]. apply (IH None); assumption.
     + assert (Nl : is_nil_ty lhs = false) by (apply clean_not_nil; exact Cl).
       assert (Nr : is_nil_ty rhs = false) by (apply clean_not_nil; exact Cr).
       assert (Tail :
@@ -285,6 +286,15 @@ Example compat_examples :
   eq_complex 20 fl_assign t_int t_str = Some false.
 Proof. vm_compute. repeat split; reflexivity. Qed.
 
+(* /repo 4ab7445: two list types go straight to the list arms with the caller's flags, so under the signature check
+   of a function type's parameters `[int?...]` is no longer `[int...]` (outside a signature it still accepts it) *)
+Example list_param_under_signature_check :
+  eq_complex 20 fl_assign (TFn [TOpen (TOpt t_int)] (Some t_int)) (TFn [TOpen t_int] (Some t_int)) = Some false /\
+  eq_complex 20 fl_assign (TFn [TMixed [TOpt t_int; t_int]] (Some t_int)) (TFn [TMixed [t_int; t_int]] (Some t_int)) = Some false /\
+  eq_complex 20 fl_assign (TFn [TOpen t_int] (Some t_int)) (TFn [TOpen t_int] (Some t_int)) = Some true /\
+  eq_complex 20 fl_assign (TOpen (TOpt t_int)) (TOpen t_int) = Some true.
+Proof. vm_compute. repeat split; reflexivity. Qed.
+
 (* ------------------------------------------------------------------ fuel is sufficient *)
 
 Lemma size_strip_le : forall t, size (strip t) <= size t.
@@ -329,8 +339,10 @@ Proof.
     cbn [weight] in W.
     pose proof (size_strip_le (strip t)) as Sl. pose proof (size_strip_le (strip u)) as Sr.
     remember (strip t) as lhs eqn:El. remember (strip u) as rhs eqn:Er.
-    assert (T : cmp fixed n None lhs rhs <> None) by (apply IH; cbn [weight]; lia).
-    destruct (cmp fixed n None lhs rhs) as [[|]|]; [discriminate| |congruence].
+    assert (T : (if is_list_ty lhs && is_list_ty rhs then Some false else cmp fixed n None lhs rhs) <> None)
+      by (destruct (is_list_ty lhs && is_list_ty rhs); [discriminate | apply IH; cbn [weight]; lia]).
+    destruct (if is_list_ty lhs && is_list_ty rhs then Some false else cmp fixed n None lhs rhs) as [[|]|];
+      [discriminate| |congruence].
     assert (Sub : forall a b, size (strip a) + size (strip b) < size lhs + size rhs -> cmp fixed n (Some f) a b <> None)
       by (intros a b Hab; apply IH; cbn [weight]; lia).
     assert (SubL : forall a b, size a + size b < size lhs + size rhs -> cmp fixed n (Some f) a b <> None)
